@@ -1246,6 +1246,25 @@ func ext۰regexp۰Regexp۰FindStringSubmatchIndex(fr *frame, args []value) value
 	return intsToValues(fr.i.reFind(args[0], args[1]))
 }
 
+// FindAllStringSubmatch on a concrete text (patterns, never input bytes).
+func ext۰regexp۰Regexp۰FindAllStringSubmatch(fr *frame, args []value) value {
+	re := hostRegexp(args[0])
+	s, ok := args[1].(string)
+	if !ok {
+		panic(unsupported("FindAllStringSubmatch on a symbolic string"))
+	}
+	n := int(fr.i.concretize(args[2], nil))
+	all := re.FindAllStringSubmatch(s, n)
+	if all == nil {
+		return []value(nil)
+	}
+	out := make([]value, len(all))
+	for j, m := range all {
+		out[j] = stringsToValues(m)
+	}
+	return out
+}
+
 func ext۰regexp۰Regexp۰FindStringSubmatch(fr *frame, args []value) value {
 	re := hostRegexp(args[0])
 	if s, ok := args[1].(string); ok {
@@ -1788,6 +1807,7 @@ func registerModels() {
 		"(*regexp.Regexp).NumSubexp":               ext۰regexp۰Regexp۰NumSubexp,
 		"(*regexp.Regexp).FindStringSubmatchIndex": ext۰regexp۰Regexp۰FindStringSubmatchIndex,
 		"(*regexp.Regexp).FindStringSubmatch":      ext۰regexp۰Regexp۰FindStringSubmatch,
+		"(*regexp.Regexp).FindAllStringSubmatch":   ext۰regexp۰Regexp۰FindAllStringSubmatch,
 		"(*regexp.Regexp).FindStringIndex":         ext۰regexp۰Regexp۰FindStringIndex,
 		"(*regexp.Regexp).MatchString":             ext۰regexp۰Regexp۰MatchString,
 		"(*regexp.Regexp).ReplaceAllStringFunc":    ext۰regexp۰Regexp۰ReplaceAllStringFunc,
